@@ -240,6 +240,21 @@ def run(rep, tier):
     newidx = [e for e in setidx if any(o[0] == "call" and o[1].name.endswith("allocated_idx_end") for a in e.args[1:] for o in up.slice_back_op(a))]
     inherit = [e for e in setidx if any(o[0] == "call" and o[1].name.endswith("FieldEntry::idx") for a in e.args[1:] for o in up.slice_back_op(a))]
     rep.ob("R13.4", "index-sources|upgrade_with", bool(newidx) and bool(inherit), "a surviving field inherits its persisted index; a new field takes an index derived from the high-water mark (never a removed field's index)", up.file + ":%d" % up.line)
+    # the write path refuses what the read path refuses: whether map_from_at looks for missing required keys depends on the *type*
+    # (keyed, not wildcard), never on the value - an empty map is exactly the value in which every required key is missing
+    mf = prog.fn(S + "::field::FieldValue::map_from_at")
+    rep.saw(mf, len(mf.events))
+    vnull = [e for e in mf.calls_named(r"field::FieldType::validate$")]
+    tests = [e for e in mf.calls_named(r"BTreeMap::<K, V, A>::is_empty$|BTreeMap::<K, V>::is_empty$") if any(mf.dominates(e.block, v.block) and e.block != v.block for v in vnull)]
+    bad = []
+    for e in tests:
+        org = mf.slice_back_op(e.args[0], through=lambda ev: False)
+        if not any(o == ("arg", 2) for o in org) or any(o[0] == "call" for o in org):
+            bad.append(e)
+    rep.ob("R13.1", "required-keys-checked-by-type|map_from_at", bool(vnull) and bool(tests) and not bad,
+           "the pass that rejects missing required keys is guarded by a test of the value being built, not of the declared type: `{}` for a keyed "
+           "map with required keys is accepted on write and rejected on read", bad[0].where() if bad else mf.file + ":%d" % mf.line)
+
     # ------------------------------------------------------------------ R13.5 the value walkers descend into the same composites
     rep.rule("R13.5", "the read-side walkers over (FieldType, FieldValue) - normalize_at and prune_undeclared_at - recurse into the same composites "
                       "(array elements, keyed map values, wildcard map values, Option payload): what one repairs the other must reach", floor=3)
